@@ -22,7 +22,7 @@ VARIABLES l,      \* index of the last consumed event
 
 vars == <<l, hist>>
 
-NoHist == [lastPodSync |-> <<>>]
+NoHist == [lastPodSync |-> <<>>, ref |-> [none |-> TRUE]]
 
 Ev(i)    == Trace[i]
 StateAt(i) == Trace[i].state
@@ -31,6 +31,7 @@ PodWriteSync(e) == e.ev = "ERSReconcile" /\ (PodCreates(e) \cup PodDeletes(e)) #
 
 UpdHist(h, e) ==
     IF e.ev = "reset" THEN NoHist
+    ELSE IF e.ev = "reference" THEN [h EXCEPT !.ref = e.state]
     ELSE IF PodWriteSync(e)
          THEN [h EXCEPT !.lastPodSync = [x \in (DOMAIN h.lastPodSync) \cup {e.rs} |-> IF x = e.rs THEN e.state.now ELSE h.lastPodSync[x]]]
     ELSE IF e.ev = "ERSReconcile" /\ (PodCreates(e) \cup PodDeletes(e)) # {}
@@ -44,7 +45,8 @@ Next == /\ l < Len(Trace)
 Spec == Init /\ [][Next]_vars
 
 \* (s, e) of the step l -> l+1
-Step(F(_, _)) == LET e == Trace[l'] IN e.ev = "reset" \/ F(Trace[l].state, e)
+\* "reference" (final state of the failure-free run) and "resume" (state a faulted run is cut in at) carry states, no step
+Step(F(_, _)) == LET e == Trace[l'] IN e.ev \in {"reset", "reference", "resume"} \/ F(Trace[l].state, e)
 
 P_C01 == [][Step(C01_Step)]_vars
 P_C02 == [][Step(C02_Step)]_vars
@@ -61,6 +63,8 @@ P_C14 == [][Step(C14_Step)]_vars
 P_C15 == [][Step(C15_Step)]_vars
 P_C16 == [][Step(C16_Step)]_vars
 P_C17 == [][Step(C17_Step)]_vars
+P_C11 == [][Step(C11_Safety)]_vars
+P_C11f == [][LET e == Trace[l'] IN e.ev = "faultEnd" => C11_Final(hist.ref, e)]_vars
 P_C19 == [][Step(C19_Step)]_vars
 
 \* C09, spacing: two syncs of one replica set that issue pod writes (status writes succeeding) are at least
@@ -80,7 +84,7 @@ ConfCount(s, e) ==
 P_Conf == [][Step(ConfCount)]_vars
 ConfReport == PrintT(<<"CONF", TLCGet(11), TLCGet(12)>>)
 
-I_C13 == Trace[l].ev = "reset" \/ C13_Inv(Trace[l].state)
+I_C13 == Trace[l].ev \in {"reset", "reference", "resume"} \/ C13_Inv(Trace[l].state)
 
 TraceAccepted == TLCGet("stats").diameter = Len(Trace)
 =============================================================================
